@@ -585,7 +585,14 @@ def rigid_multi(case, ctx, rng):
         _cmp(ctx, "rigidm.rmsd", f"{tag}:rmsd({label})", r0, r1, 16 * taur + 1e-5, f"rmsd ({label}) to an independently moved reference")
     k = int(rng.integers(nf))
     ta, tb = md.Trajectory(t0.xyz.copy(), t0.topology), md.Trajectory(x1.copy(), t0.topology)
-    _cmp(ctx, "rigidm.rmsd", f"{tag}:rmsd(reference=self)", md.rmsd(ta, ta, k), md.rmsd(tb, tb, k), 16 * tau.max() + 1e-5, "rmsd to a frame of the same object")
+    ra, rb = md.rmsd(ta, ta, k), md.rmsd(tb, tb, k)
+    # near RMSD = 0 (frame k against itself) the float32 kernel's error is one of the MEAN SQUARE deviation, eps32-relative to
+    # the structures' own size G/N (C06's bound); in RMSD that is min(sqrt(e), e / rmsd), not a term linear in the coordinates
+    xc = x0 - x0.mean(axis=1, keepdims=True)
+    G = (xc ** 2).sum(axis=(1, 2))
+    e_msd = 64 * EPS * (4 + na / 512.0) * (G + G[k]) / na
+    tol_self = 16 * tau.max() + 1e-5 + np.minimum(np.sqrt(e_msd), e_msd / np.maximum(np.asarray(ra, np.float64), 1e-12))
+    _cmp(ctx, "rigidm.rmsd", f"{tag}:rmsd(reference=self)", ra, rb, tol_self, "rmsd to a frame of the same object")
     _cmp(ctx, "rigidm.rg", f"{tag}:compute_rg", md.compute_rg(t0), md.compute_rg(t1), 4 * T2, "radius of gyration")
     masses = rng.uniform(1.0, 32.0, na)
     _cmp(ctx, "rigidm.rg", f"{tag}:compute_rg(masses)", md.compute_rg(t0, masses=masses), md.compute_rg(t1, masses=masses), 4 * T2, "mass-weighted radius of gyration")
